@@ -2103,7 +2103,7 @@ class CodeGenerator(NodeVisitor):
         self, node: nodes.EvalContextModifier, frame: Frame
     ) -> None:
         for keyword in node.options:
-            self.writeline(f"context.eval_ctx.{keyword.key} = ")
+            self.writeline(f"context.eval_ctx.{keyword.key} = ", node)
             self.visit(keyword.value, frame)
             try:
                 val = keyword.value.as_const(frame.eval_ctx)
